@@ -100,14 +100,16 @@ func buildTable(r *mon.Run, rep uint64) {
 	}
 	// RpcError values: every type string x a kind x a message
 	types := append([]string{}, rpcTypes...)
-	if rep > 0 { // thorough tier: further generated type strings
-		for k := 0; k < 8; k++ {
-			types = append(types, wc.GenUTF8(rng, 20))
-		}
+	// further generated type strings (any valid UTF-8 is a legal RpcError.Type)
+	for k := 0; k < 8; k++ {
+		types = append(types, wc.GenUTF8(rng, 20))
 	}
 	for i, ty := range types {
 		for k := 0; k < 3; k++ {
 			ty, kind := ty, rpcKinds[rng.IntN(len(rpcKinds))]
+			if rng.IntN(4) == 0 {
+				kind = wc.GenUTF8(rng, 16) // any kind string, not only the listed ones
+			}
 			msg := fmt.Sprintf("m%d-%d ", i, k) + wc.GenUTF8(rng, 30)
 			kinds := []string{kind}
 			add(errCase{Name: fmt.Sprintf("rpc:%d:%d:%d", rep, i, k), Class: "rpcerror", Types: []string{ty}, Kinds: kinds, MsgPart: msg,
@@ -190,6 +192,13 @@ func buildTable(r *mon.Run, rep uint64) {
 	pan("nil-deref", "nil pointer", func() { var p *ptrErr; _ = p.Msg })
 	pan("type-assertion", "interface conversion", func() { var x any = "s"; _ = x.(int) })
 	pan("panic-nil", "", func() { panic(nil) })
+	pan("float", "2.5", func() { panic(2.5) })
+	pan("bytes", "", func() { panic([]byte("raw bytes")) })
+	pan("typed-nil-pointer", "", func() { var p *ptrErr; panic(p) })
+	pan("nested-wrapped-rpcerror", "deep panic", func() {
+		panic(fmt.Errorf("l2: %w", fmt.Errorf("l1: %w", &vgirpc.RpcError{Type: "KeyError", Message: "deep panic"})))
+	})
+	pan("slice-of-errors", "", func() { panic([]error{errors.New("a"), errors.New("b")}) })
 	pan("divide", "divide by zero", func() { a, b := 1, 0; _ = a / b })
 	pan("closed-channel", "closed channel", func() { c := make(chan int); close(c); close(c) })
 }
@@ -498,7 +507,7 @@ func main() {
 		"stage:unary-val", "stage:unary-void", "stage:producer-init", "stage:exchange-init", "stage:producer-turn0", "stage:producer-turn-later",
 		"stage:exchange-turn0", "stage:exchange-turn-later", "transport:pipe", "transport:http", "debug:true", "debug:false",
 		"real:unknown-method", "real:version-gate", "real:session-lost", "real:draining", "real:wire-cap", "real:external-cap",
-		"http:producer-continuation-reached")
+		"http:producer-continuation-reached", "probe:unjudged")
 
 	buildTable(r, 0)
 	vgirpc.RegisterStateType(&ErrState{})
@@ -569,4 +578,46 @@ func main() {
 	r.Set("error_table_entries", len(errTable))
 
 	realFrameworkErrors(r)
+	probeUnjudged(r, e)
+}
+
+// probeUnjudged drives inputs whose membership in the statement's domain is
+// not decidable from its text; outcomes are counted, never judged:
+//   - a handler returning a typed nil *RpcError / *SessionLostError (a non-nil
+//     error interface holding a nil pointer);
+//   - RpcError Type / Kind / Message holding invalid UTF-8 (JSON cannot carry it).
+func probeUnjudged(r *mon.Run, e *env) {
+	outcomes := map[string]string{}
+	probe := func(name string, mk func() error) {
+		r.Class("probe:unjudged")
+		errTable = append(errTable, errCase{Name: "probe:" + name, Class: "probe", Make: mk})
+		sel := int64(len(errTable) - 1)
+		p := epBatch(sel, 0)
+		defer p.Release()
+		for _, tr := range []string{"pipe", "http"} {
+			var o *wc.Obs
+			if tr == "pipe" {
+				o = wc.PipeCall(e.pipe, wc.RequestBytes("u_val", p))
+			} else {
+				o = wc.HTTPCall(e.h, "/u_val", wc.RequestBytes("u_val", p))
+			}
+			out := "no exception batch"
+			switch {
+			case o.Panicked != "":
+				out = "server entry point panicked: " + wc.PanicHead(o.Panicked)
+			case len(o.Errors) > 0:
+				out = fmt.Sprintf("exception_type=%q kind=%q", o.Errors[0].Type, o.Errors[0].Kind)
+			}
+			outcomes[name+"/"+tr] = out
+			r.Count("probe_unjudged", 1)
+			o.Release()
+		}
+	}
+	probe("typed-nil-*RpcError", func() error { var x *vgirpc.RpcError; return x })
+	probe("typed-nil-*SessionLostError", func() error { var x *vgirpc.SessionLostError; return x })
+	probe("typed-nil-*ServerDrainingError", func() error { var x *vgirpc.ServerDrainingError; return x })
+	probe("invalid-utf8-type-kind-message", func() error {
+		return &vgirpc.RpcError{Type: "Bad\xffType", Message: "m\xfe", Kind: "k\xfd"}
+	})
+	r.Set("unjudged_probe_outcomes", outcomes)
 }
